@@ -1,7 +1,16 @@
+/-
+  C20 — moves respect their limits and act rigidly; box predicates are exact.
+  Property theorems about Model/Moves.lean, over every ordered field (so over ℚ — every value a
+  float can hold — and ℝ).  `Gen/Moves.lean` is regenerated from the source on every run; the
+  bridge lemmas `C20_bridge_*` tie its kernels to the model definitions the theorems are about.
+  Reading (DESIGN §4.0): boxes have `lo ≤ hi`; uniform draws satisfy `0 ≤ u < 1`; `cos`/`sin`
+  enter as `c`, `s` with `c² + s² = 1`; scipy's rotations enter as orthogonal matrices.
+-/
 import TopSearch.Model.Moves
 import TopSearch.Gen.Moves
 import Mathlib.Tactic.Ring
 import Mathlib.Tactic.Linarith
+import Mathlib.Tactic.LinearCombination
 import Mathlib.Algebra.Order.Field.Basic
 namespace TopSearch.Props.C20
 open TopSearch TopSearch.Moves
@@ -12,6 +21,7 @@ set_option linter.unreachableTactic false
 set_option linter.unusedSectionVars false
 variable {α : Type} [Field α] [LinearOrder α] [IsStrictOrderedRing α]
 
+omit [Field α] [LinearOrder α] [IsStrictOrderedRing α] in
 theorem m3_ext {A B : M3 α} (h11 : A.a11 = B.a11) (h12 : A.a12 = B.a12) (h13 : A.a13 = B.a13)
     (h21 : A.a21 = B.a21) (h22 : A.a22 = B.a22) (h23 : A.a23 = B.a23)
     (h31 : A.a31 = B.a31) (h32 : A.a32 = B.a32) (h33 : A.a33 = B.a33) : A = B := by
@@ -63,4 +73,554 @@ theorem C20_bridge_rotation (Q : M3 α) (c s : α) :
   refine ⟨?_, rfl⟩
   refine m3_ext ?_ ?_ ?_ ?_ ?_ ?_ ?_ ?_ ?_ <;> first | rfl | (simp only [Gen.Moves.rotX, rotX]; ring)
 end bridge
+
+/-! ### the property -/
+
+section props
+variable {α : Type} [Field α] [LinearOrder α] [IsStrictOrderedRing α]
+
+/-- Box predicates agree with direct comparison against the box: `check_bounds` is
+    "on or outside a bound" and is the disjunction of the two `active_bounds` masks, which are
+    `x ≤ lo` and `x ≥ hi`; for `lo ≤ hi` the clip is `min (max x lo) hi`, lands in the box, is the
+    identity inside the box, is idempotent, and the clipped coordinate is flagged exactly when the
+    original was on or outside a bound (for `lo < hi` also mask by mask). -/
+theorem C20_box_predicates (x lo hi : α) :
+    (checkBounds1 x lo hi = true ↔ (x ≤ lo ∨ x ≥ hi)) ∧
+    ((activeBounds1 x lo hi).1 = true ↔ x ≤ lo) ∧ ((activeBounds1 x lo hi).2 = true ↔ x ≥ hi) ∧
+    checkBounds1 x lo hi = ((activeBounds1 x lo hi).1 || (activeBounds1 x lo hi).2) ∧
+    (lo ≤ hi →
+      clip1 x lo hi = min (max x lo) hi ∧ lo ≤ clip1 x lo hi ∧ clip1 x lo hi ≤ hi ∧
+      (lo ≤ x → x ≤ hi → clip1 x lo hi = x) ∧
+      clip1 (clip1 x lo hi) lo hi = clip1 x lo hi ∧
+      (checkBounds1 (clip1 x lo hi) lo hi = true ↔ (x ≤ lo ∨ x ≥ hi)) ∧
+      (lo < hi → (((activeBounds1 (clip1 x lo hi) lo hi).1 = true ↔ x ≤ lo) ∧
+                  ((activeBounds1 (clip1 x lo hi) lo hi).2 = true ↔ x ≥ hi)))) := by
+  refine ⟨?_, ?_, ?_, ?_, ?_⟩
+  · unfold checkBounds1
+    rcases cmp_cases x lo with ⟨a1, a2, a3, a4⟩ | rfl | ⟨a1, a2, a3, a4⟩ <;>
+      rcases cmp_cases x hi with ⟨b1, b2, b3, b4⟩ | rfl | ⟨b1, b2, b3, b4⟩ <;> simp [*]
+  · simp [activeBounds1]
+  · simp [activeBounds1]
+  · unfold checkBounds1 activeBounds1
+    rcases cmp_cases x lo with ⟨a1, a2, a3, a4⟩ | rfl | ⟨a1, a2, a3, a4⟩ <;>
+      rcases cmp_cases x hi with ⟨b1, b2, b3, b4⟩ | rfl | ⟨b1, b2, b3, b4⟩ <;> simp [*]
+  · intro hb
+    have hclip : clip1 x lo hi = min (max x lo) hi := by
+      unfold clip1 npClip
+      rcases cmp_cases x lo with ⟨a1, a2, a3, a4⟩ | rfl | ⟨a1, a2, a3, a4⟩ <;>
+        rcases cmp_cases x hi with ⟨b1, b2, b3, b4⟩ | rfl | ⟨b1, b2, b3, b4⟩ <;>
+        simp [*, not_lt.mpr hb]
+    have h1 : lo ≤ clip1 x lo hi := by rw [hclip]; exact le_min (le_max_right _ _) hb
+    have h2 : clip1 x lo hi ≤ hi := by rw [hclip]; exact min_le_right _ _
+    have hid : ∀ y, lo ≤ y → y ≤ hi → clip1 y lo hi = y := by
+      intro y hy1 hy2
+      unfold clip1 npClip
+      simp [not_lt.mpr hy1, not_lt.mpr hy2]
+    have hcases : (x ≤ lo ∧ clip1 x lo hi = lo) ∨ (x ≥ hi ∧ clip1 x lo hi = hi) ∨
+        (lo < x ∧ x < hi ∧ clip1 x lo hi = x) := by
+      rcases le_or_gt x lo with h | h
+      · left; refine ⟨h, ?_⟩; rw [hclip, max_eq_right h, min_eq_left hb]
+      · rcases le_or_gt hi x with h' | h'
+        · right; left; refine ⟨h', ?_⟩; rw [hclip, max_eq_left h.le, min_eq_right h']
+        · right; right; exact ⟨h, h', hid x h.le h'.le⟩
+    refine ⟨hclip, h1, h2, hid x, hid _ h1 h2, ?_, ?_⟩
+    · unfold checkBounds1
+      rcases hcases with ⟨h, e⟩ | ⟨h, e⟩ | ⟨h, h', e⟩
+      · rw [e]; simp [h]
+      · rw [e]; simp [h]
+      · rw [e]; simp [h, h', not_le.mpr h, not_le.mpr h']
+    · intro hlt
+      unfold activeBounds1
+      rcases hcases with ⟨h, e⟩ | ⟨h, e⟩ | ⟨h, h', e⟩
+      · rw [e]; simp [h, not_le.mpr hlt]; exact lt_of_le_of_lt h hlt
+      · rw [e]; simp [h, not_le.mpr hlt]; exact lt_of_lt_of_le hlt h
+      · rw [e]; simp [not_le.mpr h, not_le.mpr h']
+
+/-- The list-level predicates: `at_bounds` = some coordinate on or outside a bound, `all_bounds` =
+    every coordinate, `active_bounds` = the two coordinate-wise masks, `move_to_bounds` keeps the
+    bounds and puts every coordinate into its interval. -/
+theorem C20_box_predicates_lists (cs : List (Coord α)) :
+    (atBounds cs = true ↔ ∃ c ∈ cs, c.x ≤ c.lo ∨ c.x ≥ c.hi) ∧
+    (allBounds cs = true ↔ ∀ c ∈ cs, c.x ≤ c.lo ∨ c.x ≥ c.hi) ∧
+    (activeBounds cs).1 = cs.map (fun c => decide (c.x ≤ c.lo)) ∧
+    (activeBounds cs).2 = cs.map (fun c => decide (c.x ≥ c.hi)) ∧
+    (moveToBounds cs).length = cs.length ∧
+    ∀ c ∈ moveToBounds cs, c.lo ≤ c.hi → c.lo ≤ c.x ∧ c.x ≤ c.hi := by
+  refine ⟨?_, ?_, ?_, ?_, ?_, ?_⟩
+  · simp only [atBounds, checkBounds, List.any_map, List.any_eq_true, Function.comp, id]
+    constructor
+    · rintro ⟨c, hc, h⟩; exact ⟨c, hc, (C20_box_predicates c.x c.lo c.hi).1.mp h⟩
+    · rintro ⟨c, hc, h⟩; exact ⟨c, hc, (C20_box_predicates c.x c.lo c.hi).1.mpr h⟩
+  · simp only [allBounds, checkBounds, List.all_map, List.all_eq_true, Function.comp, id]
+    constructor
+    · intro h c hc; exact (C20_box_predicates c.x c.lo c.hi).1.mp (h c hc)
+    · intro h c hc; exact (C20_box_predicates c.x c.lo c.hi).1.mpr (h c hc)
+  · simp [activeBounds, activeBounds1]
+  · simp [activeBounds, activeBounds1]
+  · simp [moveToBounds]
+  · intro c hc hb
+    simp only [moveToBounds, List.mem_map] at hc
+    obtain ⟨c0, _, rfl⟩ := hc
+    have := (C20_box_predicates c0.x c0.lo c0.hi).2.2.2.2 hb
+    exact ⟨this.2.1, this.2.2.1⟩
+
+/-- `StandardPerturbation`: a draw `u ∈ [0,1)` and a step `s ≥ 0` give a perturbation of at most
+    half the step (the lower end `−s/2` is attained at `u = 0`, the upper end is not attained);
+    after the clip the coordinate is inside the box; and starting inside the box the coordinate
+    moves by at most the unclipped perturbation, hence by at most half the configured step —
+    `max_displacement` (absolute) or `max_displacement × width` (proportional). -/
+theorem C20_std_step (u s : α) (hu0 : 0 ≤ u) (hu1 : u < 1) (hs : 0 ≤ s) :
+    |stdPerturbation u s| ≤ s / 2 ∧ -(s / 2) ≤ stdPerturbation u s ∧ (0 < s → stdPerturbation u s < s / 2) ∧
+    ∀ (proportional : Bool) (m : α) (c : Coord α), 0 ≤ m → c.lo ≤ c.hi →
+      s = stepSize proportional m c.lo c.hi →
+      0 ≤ stepSize proportional m c.lo c.hi ∧
+      c.lo ≤ stdPerturb1 proportional m u c ∧ stdPerturb1 proportional m u c ≤ c.hi ∧
+      (c.lo ≤ c.x → c.x ≤ c.hi →
+        |stdPerturb1 proportional m u c - c.x| ≤ |stdPerturbation u s| ∧
+        |stdPerturb1 proportional m u c - c.x| ≤ stepSize proportional m c.lo c.hi / 2) := by
+  have e : stdPerturbation u s = (u - 1 / 2) * s := by
+    simp only [stdPerturbation, half]; push_cast; ring
+  have hlo : -(s / 2) ≤ stdPerturbation u s := by rw [e]; nlinarith
+  have hhi : stdPerturbation u s ≤ s / 2 := by rw [e]; nlinarith
+  refine ⟨abs_le.mpr ⟨hlo, hhi⟩, hlo, ?_, ?_⟩
+  · intro hs'; rw [e]; nlinarith
+  · intro proportional m c hm hb hs_eq
+    have hstep : 0 ≤ stepSize proportional m c.lo c.hi := by
+      unfold stepSize; split
+      · exact mul_nonneg (sub_nonneg.mpr hb) hm
+      · exact hm
+    have hbox := (C20_box_predicates (c.x + stdPerturbation u s) c.lo c.hi).2.2.2.2 hb
+    have hdef : stdPerturb1 proportional m u c = clip1 (c.x + stdPerturbation u s) c.lo c.hi := by
+      simp only [stdPerturb1, hs_eq]
+    refine ⟨hstep, ?_, ?_, ?_⟩
+    · rw [hdef]; exact hbox.2.1
+    · rw [hdef]; exact hbox.2.2.1
+    · intro hx1 hx2
+      have hmove : |stdPerturb1 proportional m u c - c.x| ≤ |stdPerturbation u s| := by
+        rw [hdef, hbox.1]
+        set p := stdPerturbation u s
+        rcases le_total 0 p with hp | hp
+        · rw [abs_of_nonneg hp, max_eq_left (by linarith)]
+          have : c.x ≤ min (c.x + p) c.hi := le_min (by linarith) hx2
+          rw [abs_of_nonneg (by linarith)]
+          have := min_le_left (c.x + p) c.hi
+          linarith
+        · rw [abs_of_nonpos hp]
+          have h1 : c.x + p ≤ c.hi := by linarith
+          have h2 : max (c.x + p) c.lo ≤ c.hi := max_le h1 hb
+          rw [min_eq_left h2]
+          have h3 : max (c.x + p) c.lo ≤ c.x := max_le (by linarith) hx1
+          rw [abs_of_nonpos (by linarith)]
+          have := le_max_left (c.x + p) c.lo
+          linarith
+      refine ⟨hmove, le_trans hmove ?_⟩
+      rw [← hs_eq]
+      exact abs_le.mpr ⟨hlo, hhi⟩
+
+/-- `MolecularPerturbation`: a draw `u ∈ [0,1)` gives an angle in `[−m, m)`. -/
+theorem C20_molecular_angle_range (u m : α) (hu0 : 0 ≤ u) (hu1 : u < 1) (hm : 0 ≤ m) :
+    -m ≤ molecularAngle u m ∧ molecularAngle u m ≤ m ∧ |molecularAngle u m| ≤ m := by
+  have e : molecularAngle u m = (u * 2 - 1) * m := by
+    simp only [molecularAngle]; push_cast; ring
+  have h1 : -m ≤ molecularAngle u m := by rw [e]; nlinarith
+  have h2 : molecularAngle u m ≤ m := by rw [e]; nlinarith
+  exact ⟨h1, h2, abs_le.mpr ⟨h1, h2⟩⟩
+
+/-! #### atomic displacement -/
+
+omit [LinearOrder α] [IsStrictOrderedRing α] in
+theorem addAtom_get (pos : List α) (a : Nat) (p0 p1 p2 : α) (k : Nat) :
+    (addAtom pos a p0 p1 p2)[k]? = (pos[k]?).map fun v =>
+      if k = 3 * a then v + p0 else if k = 3 * a + 1 then v + p1 else if k = 3 * a + 2 then v + p2 else v := by
+  simp only [addAtom, List.getElem?_modify]
+  cases pos[k]? with
+  | none => simp
+  | some v =>
+    simp only [Option.map_eq_map, Option.map_some]
+    by_cases h0 : k = 3 * a
+    · subst h0; simp
+    · by_cases h1 : k = 3 * a + 1
+      · subst h1; simp
+      · by_cases h2 : k = 3 * a + 2
+        · subst h2; simp
+        · have e0 : ¬ 3 * a = k := fun h => h0 h.symm
+          have e1 : ¬ 3 * a + 1 = k := fun h => h1 h.symm
+          have e2 : ¬ 3 * a + 2 = k := fun h => h2 h.symm
+          simp [h0, h1, h2, e0, e1, e2]
+
+omit [LinearOrder α] [IsStrictOrderedRing α] in
+theorem atomicPerturb_length (m : α) (atoms : List Nat) (draws : List (α × α × α)) (pos : List α) :
+    (atomicPerturb m atoms draws pos).length = pos.length := by
+  induction atoms generalizing draws pos with
+  | nil => simp [atomicPerturb]
+  | cons a as ih =>
+    cases draws with
+    | nil => simp [atomicPerturb]
+    | cons u us =>
+      obtain ⟨u0, u1, u2⟩ := u
+      simp only [atomicPerturb, ih, addAtom, List.length_modify]
+
+omit [LinearOrder α] [IsStrictOrderedRing α] in
+/-- coordinates of atoms that were not sampled are untouched -/
+theorem atomicPerturb_untouched (m : α) (atoms : List Nat) (draws : List (α × α × α)) (pos : List α)
+    (k : Nat) (hk : k / 3 ∉ atoms) : (atomicPerturb m atoms draws pos)[k]? = pos[k]? := by
+  induction atoms generalizing draws pos with
+  | nil => simp [atomicPerturb]
+  | cons a as ih =>
+    cases draws with
+    | nil => simp [atomicPerturb]
+    | cons u us =>
+      obtain ⟨u0, u1, u2⟩ := u
+      simp only [List.mem_cons, not_or] at hk
+      simp only [atomicPerturb]
+      rw [ih _ _ hk.2, addAtom_get]
+      have h0 : ¬ k = 3 * a := by omega
+      have h1 : ¬ k = 3 * a + 1 := by omega
+      have h2 : ¬ k = 3 * a + 2 := by omega
+      simp [h0, h1, h2]
+
+omit [LinearOrder α] [IsStrictOrderedRing α] in
+/-- the three coordinates of a sampled atom receive exactly the three entries of its own draw -/
+theorem atomicPerturb_touched (m : α) (atoms : List Nat) (draws : List (α × α × α)) (pos : List α)
+    (hn : atoms.Nodup) (a : Nat) (u : α × α × α) (hmem : (a, u) ∈ atoms.zip draws) :
+    (atomicPerturb m atoms draws pos)[3 * a]? = (pos[3 * a]?).map (· + atomicPerturbation u.1 m) ∧
+    (atomicPerturb m atoms draws pos)[3 * a + 1]? = (pos[3 * a + 1]?).map (· + atomicPerturbation u.2.1 m) ∧
+    (atomicPerturb m atoms draws pos)[3 * a + 2]? = (pos[3 * a + 2]?).map (· + atomicPerturbation u.2.2 m) := by
+  induction atoms generalizing draws pos with
+  | nil => simp at hmem
+  | cons b bs ih =>
+    cases draws with
+    | nil => simp at hmem
+    | cons w ws =>
+      obtain ⟨w0, w1, w2⟩ := w
+      simp only [List.zip_cons_cons, List.mem_cons] at hmem
+      have hn' := List.nodup_cons.mp hn
+      simp only [atomicPerturb]
+      rcases hmem with h | h
+      · obtain ⟨rfl, rfl⟩ := Prod.mk.inj h
+        have hA : ∀ j, j < 3 → (3 * a + j) / 3 ∉ bs := by
+          intro j hj; have : (3 * a + j) / 3 = a := by omega
+          rw [this]; exact hn'.1
+        have e0 := atomicPerturb_untouched m bs ws (addAtom pos a (atomicPerturbation w0 m)
+          (atomicPerturbation w1 m) (atomicPerturbation w2 m)) (3 * a) (by simpa using hA 0 (by omega))
+        have e1 := atomicPerturb_untouched m bs ws (addAtom pos a (atomicPerturbation w0 m)
+          (atomicPerturbation w1 m) (atomicPerturbation w2 m)) (3 * a + 1) (hA 1 (by omega))
+        have e2 := atomicPerturb_untouched m bs ws (addAtom pos a (atomicPerturbation w0 m)
+          (atomicPerturbation w1 m) (atomicPerturbation w2 m)) (3 * a + 2) (hA 2 (by omega))
+        rw [e0, e1, e2, addAtom_get, addAtom_get, addAtom_get]
+        refine ⟨?_, ?_, ?_⟩ <;> congr 1 <;> funext v <;> simp
+      · have hab : a ≠ b := by
+          intro hab; subst hab
+          exact hn'.1 (List.of_mem_zip h).1
+        obtain ⟨i0, i1, i2⟩ := ih ws (addAtom pos b (atomicPerturbation w0 m)
+          (atomicPerturbation w1 m) (atomicPerturbation w2 m)) hn'.2 h
+        rw [i0, i1, i2, addAtom_get, addAtom_get, addAtom_get]
+        have n0 : ∀ j, j < 3 → ¬ 3 * a + j = 3 * b ∧ ¬ 3 * a + j = 3 * b + 1 ∧ ¬ 3 * a + j = 3 * b + 2 := by
+          intro j hj; omega
+        have := n0 0 (by omega); have := n0 1 (by omega); have := n0 2 (by omega)
+        simp_all
+
+/-- `AtomicPerturbation`: given the sample is distinct and drawn from atoms `1 … n−1`
+    (`random.sample(range(1, n), max_atoms)`) and the draws lie in `[0,1)`: the position keeps its
+    length; every coordinate of every atom outside the sample — in particular of atom 0 — is
+    unchanged; the three coordinates of the i-th sampled atom receive exactly the three entries of
+    the i-th draw; and every such entry is at most half the step in size.  So exactly the sampled
+    atoms (`max_atoms` many, distinct) are displaced, never the first, each axis by ≤ step/2. -/
+theorem C20_atomic_move (m : α) (hm : 0 ≤ m) (atoms : List Nat) (draws : List (α × α × α))
+    (pos : List α) (hn : atoms.Nodup) (hrange : ∀ a ∈ atoms, 1 ≤ a) :
+    (atomicPerturb m atoms draws pos).length = pos.length ∧
+    (∀ k, k / 3 ∉ atoms → (atomicPerturb m atoms draws pos)[k]? = pos[k]?) ∧
+    (∀ k, k < 3 → (atomicPerturb m atoms draws pos)[k]? = pos[k]?) ∧
+    (∀ a u, (a, u) ∈ atoms.zip draws →
+      (atomicPerturb m atoms draws pos)[3 * a]? = (pos[3 * a]?).map (· + atomicPerturbation u.1 m) ∧
+      (atomicPerturb m atoms draws pos)[3 * a + 1]? = (pos[3 * a + 1]?).map (· + atomicPerturbation u.2.1 m) ∧
+      (atomicPerturb m atoms draws pos)[3 * a + 2]? = (pos[3 * a + 2]?).map (· + atomicPerturbation u.2.2 m)) ∧
+    (∀ u : α, 0 ≤ u → u < 1 → |atomicPerturbation u m| ≤ m / 2) := by
+  refine ⟨atomicPerturb_length m atoms draws pos, atomicPerturb_untouched m atoms draws pos, ?_,
+    atomicPerturb_touched m atoms draws pos hn, ?_⟩
+  · intro k hk
+    apply atomicPerturb_untouched
+    intro h
+    have := hrange _ h
+    omega
+  · intro u hu0 hu1
+    have e : atomicPerturbation u m = u * m - 1 / 2 * m := by
+      simp only [atomicPerturbation, half]; push_cast; ring
+    rw [e]
+    exact abs_le.mpr ⟨by nlinarith, by nlinarith⟩
+
+omit [Field α] [LinearOrder α] [IsStrictOrderedRing α] in
+/-- the atoms `random.sample(range(1, n), k)` can return are `≥ 1` and `< n` -/
+theorem sampleAtoms_range (hi : Nat) (idx atoms : List Nat) (h : sampleAtoms 1 hi idx = some atoms) :
+    ∀ a ∈ atoms, 1 ≤ a ∧ a < hi := by
+  induction idx generalizing atoms with
+  | nil => simp [sampleAtoms] at h; subst h; simp
+  | cons k ks ih =>
+    simp only [sampleAtoms, List.mapM_cons, Option.bind_eq_bind, Option.bind_eq_some_iff] at h
+    obtain ⟨a, ha, as, has, hpure⟩ := h
+    simp only [Option.pure_def, Option.some.injEq] at hpure
+    subst hpure
+    intro x hx
+    rcases List.mem_cons.mp hx with rfl | hx
+    · have hm := List.mem_of_getElem? ha
+      simp only [population, List.mem_drop_iff_getElem, List.getElem_range] at hm
+      obtain ⟨i, hi', rfl⟩ := hm
+      simp at hi'
+      omega
+    · exact ih as has x hx
+
+/-! #### rotation algebra -/
+
+end props
+
+section rot
+variable {α : Type} [Field α]
+
+omit [Field α] in
+theorem v3_ext {u v : V3 α} (hx : u.x = v.x) (hy : u.y = v.y) (hz : u.z = v.z) : u = v := by
+  cases u; cases v; simp_all
+
+/-- orthogonality, both products (equivalent for square matrices; both are what is used) -/
+def Orthogonal (Q : M3 α) : Prop :=
+  (M3.transpose Q).mul Q = M3.one ∧ Q.mul (M3.transpose Q) = M3.one
+
+theorem mul_assoc3 (A B C : M3 α) : (A.mul B).mul C = A.mul (B.mul C) := by
+  refine m3_ext ?_ ?_ ?_ ?_ ?_ ?_ ?_ ?_ ?_ <;> simp only [M3.mul] <;> ring
+
+theorem transpose_mul (A B : M3 α) : M3.transpose (A.mul B) = (M3.transpose B).mul (M3.transpose A) := by
+  refine m3_ext ?_ ?_ ?_ ?_ ?_ ?_ ?_ ?_ ?_ <;> simp only [M3.mul, M3.transpose] <;> ring
+
+omit [Field α] in
+theorem transpose_transpose (A : M3 α) : M3.transpose (M3.transpose A) = A := rfl
+
+theorem one_mul3 (A : M3 α) : M3.one.mul A = A := by
+  refine m3_ext ?_ ?_ ?_ ?_ ?_ ?_ ?_ ?_ ?_ <;> simp only [M3.mul, M3.one] <;> ring
+
+theorem mul_one3 (A : M3 α) : A.mul M3.one = A := by
+  refine m3_ext ?_ ?_ ?_ ?_ ?_ ?_ ?_ ?_ ?_ <;> simp only [M3.mul, M3.one] <;> ring
+
+theorem mulVec_mul (A B : M3 α) (v : V3 α) : (A.mul B).mulVec v = A.mulVec (B.mulVec v) := by
+  refine v3_ext ?_ ?_ ?_ <;> simp only [M3.mul, M3.mulVec] <;> ring
+
+theorem one_mulVec (v : V3 α) : (M3.one : M3 α).mulVec v = v := by
+  refine v3_ext ?_ ?_ ?_ <;> simp only [M3.one, M3.mulVec] <;> ring
+
+theorem mulVec_sub (A : M3 α) (u v : V3 α) : A.mulVec (u.sub v) = (A.mulVec u).sub (A.mulVec v) := by
+  refine v3_ext ?_ ?_ ?_ <;> simp only [M3.mulVec, V3.sub] <;> ring
+
+/-- a matrix with `AᵀA = 1` preserves the squared length of every vector -/
+theorem dot_mulVec (A : M3 α) (h : (M3.transpose A).mul A = M3.one) (w : V3 α) :
+    V3.dot (A.mulVec w) (A.mulVec w) = V3.dot w w := by
+  have h11 := congrArg M3.a11 h; have h12 := congrArg M3.a12 h; have h13 := congrArg M3.a13 h
+  have h22 := congrArg M3.a22 h; have h23 := congrArg M3.a23 h; have h33 := congrArg M3.a33 h
+  simp only [M3.mul, M3.transpose, M3.one] at h11 h12 h13 h22 h23 h33
+  simp only [V3.dot, M3.mulVec]
+  linear_combination (w.x * w.x) * h11 + (2 * w.x * w.y) * h12 + (2 * w.x * w.z) * h13 +
+    (w.y * w.y) * h22 + (2 * w.y * w.z) * h23 + (w.z * w.z) * h33
+
+/-- … hence all distances -/
+theorem dist2_mulVec (A : M3 α) (h : (M3.transpose A).mul A = M3.one) (u v : V3 α) :
+    V3.dist2 (A.mulVec u) (A.mulVec v) = V3.dist2 u v := by
+  simp only [V3.dist2, ← mulVec_sub, dot_mulVec A h]
+
+theorem dist2_add_right (u v t : V3 α) : V3.dist2 (u.add t) (v.add t) = V3.dist2 u v := by
+  simp only [V3.dist2, V3.dot, V3.sub, V3.add]; ring
+
+theorem dist2_sub_right (u v t : V3 α) : V3.dist2 (u.sub t) (v.sub t) = V3.dist2 u v := by
+  simp only [V3.dist2, V3.dot, V3.sub]; ring
+
+theorem sub_add_cancel3 (p a : V3 α) : (p.sub a).add a = p := by
+  refine v3_ext ?_ ?_ ?_ <;> simp only [V3.sub, V3.add] <;> ring
+
+theorem rotX_orthogonal (c s : α) (h : c * c + s * s = 1) : Orthogonal (rotX c s) := by
+  constructor <;> refine m3_ext ?_ ?_ ?_ ?_ ?_ ?_ ?_ ?_ ?_ <;>
+    simp only [M3.mul, M3.transpose, M3.one, rotX] <;> first | ring1 | linear_combination h
+
+theorem rotX_inverse (c s : α) (h : c * c + s * s = 1) :
+    (rotX c s).mul (rotX c (-s)) = M3.one ∧ (rotX c (-s)).mul (rotX c s) = M3.one := by
+  constructor <;> refine m3_ext ?_ ?_ ?_ ?_ ?_ ?_ ?_ ?_ ?_ <;>
+    simp only [M3.mul, M3.one, rotX] <;> first | ring1 | linear_combination h
+
+theorem orthogonal_mul {A B : M3 α} (hA : Orthogonal A) (hB : Orthogonal B) : Orthogonal (A.mul B) := by
+  constructor
+  · rw [transpose_mul, mul_assoc3, ← mul_assoc3 (M3.transpose A), hA.1, one_mul3, hB.1]
+  · rw [transpose_mul, mul_assoc3, ← mul_assoc3 B, hB.2, one_mul3, hA.2]
+
+theorem orthogonal_transpose {A : M3 α} (hA : Orthogonal A) : Orthogonal (M3.transpose A) :=
+  ⟨hA.2, hA.1⟩
+
+/-- Rotation rigidity.  For any orthogonal `Q` (the alignment rotation) and `(c, s)` with
+    `c² + s² = 1`: the matrix `Qᵀ·Rₓ(c,s)·Q` applied to the moved atoms is orthogonal, hence
+    preserves every distance; it fixes the rotation axis `Qᵀx̂` (every multiple `t·Qᵀx̂`); and the
+    opposite rotation `(c, −s)` undoes it, as matrices and on positions.  On atoms that are not
+    moved the coded sequence "rotate everything by Q, then by Qᵀ" is the identity. -/
+theorem C20_rotation_rigid (Q : M3 α) (hQ : Orthogonal Q) (c s : α) (hcs : c * c + s * s = 1) :
+    Orthogonal (dihedralMatrix Q c s) ∧
+    (∀ u v, V3.dist2 ((dihedralMatrix Q c s).mulVec u) ((dihedralMatrix Q c s).mulVec v) = V3.dist2 u v) ∧
+    (∀ t : α, (dihedralMatrix Q c s).mulVec ((M3.transpose Q).mulVec ⟨t, 0, 0⟩) =
+      (M3.transpose Q).mulVec ⟨t, 0, 0⟩) ∧
+    (dihedralMatrix Q c s).mul (dihedralMatrix Q c (-s)) = M3.one ∧
+    (dihedralMatrix Q c (-s)).mul (dihedralMatrix Q c s) = M3.one ∧
+    (∀ a p, rotateDihedral1 Q c s a true p = ((dihedralMatrix Q c s).mulVec (p.sub a)).add a) ∧
+    (∀ a p, rotateDihedral1 Q c s a false p = p) ∧
+    (∀ a p, rotateDihedral1 Q c (-s) a true (rotateDihedral1 Q c s a true p) = p) := by
+  have hR := rotX_orthogonal c s hcs
+  have hT : Orthogonal (dihedralMatrix Q c s) :=
+    orthogonal_mul (orthogonal_transpose hQ) (orthogonal_mul hR hQ)
+  have hinv : ∀ s' : α, c * c + s' * s' = 1 → (rotX c s').mul (rotX c (-s')) = M3.one →
+      (dihedralMatrix Q c s').mul (dihedralMatrix Q c (-s')) = M3.one := by
+    intro s' _ h
+    unfold dihedralMatrix
+    rw [mul_assoc3, mul_assoc3, ← mul_assoc3 Q, hQ.2, one_mul3, ← mul_assoc3 (rotX c s'), h, one_mul3, hQ.1]
+  have hform : ∀ (s' : α) a p, rotateDihedral1 Q c s' a true p =
+      ((dihedralMatrix Q c s').mulVec (p.sub a)).add a := by
+    intro s' a p
+    simp only [rotateDihedral1, rotateDihedralWith, dihedralMatrix, mulVec_mul, if_true]
+  have hm1 := hinv s hcs (rotX_inverse c s hcs).1
+  have hm2 : (dihedralMatrix Q c (-s)).mul (dihedralMatrix Q c s) = M3.one := by
+    have := hinv (-s) (by linear_combination hcs) (by simpa using (rotX_inverse c s hcs).2)
+    simpa using this
+  refine ⟨hT, dist2_mulVec _ hT.1, ?_, hm1, hm2, hform s, ?_, ?_⟩
+  · intro t
+    unfold dihedralMatrix
+    rw [mulVec_mul, mulVec_mul, ← mulVec_mul Q, hQ.2, one_mulVec]
+    congr 1
+    refine v3_ext ?_ ?_ ?_ <;> simp only [rotX, M3.mulVec] <;> ring
+  · intro a p
+    simp only [rotateDihedral1, rotateDihedralWith, Bool.false_eq_true, if_false]
+    rw [← mulVec_mul, hQ.1, one_mulVec, sub_add_cancel3]
+  · intro a p
+    rw [hform, hform]
+    have : (((dihedralMatrix Q c s).mulVec (p.sub a)).add a).sub a = (dihedralMatrix Q c s).mulVec (p.sub a) := by
+      refine v3_ext ?_ ?_ ?_ <;> simp only [V3.sub, V3.add] <;> ring
+    rw [this, ← mulVec_mul, hm2, one_mulVec, sub_add_cancel3]
+
+/-- Bond lengths (and bond angles) under a fragment move.  Let `f` act rigidly on the moved
+    fragment (it preserves the distance between any two points) and let the molecule be mapped by
+    "apply `f` to moved atoms, identity elsewhere".  Then the distance between atoms `i` and `j` is
+    unchanged whenever both are moved, both are fixed, or one of them lies on the set `f` fixes
+    pointwise (the rotation axis: the two atoms of the axis bond).  So if every reference bond has
+    both ends moved, both fixed, or an end on the axis, every bond length is preserved; and a bond
+    angle `i–j–k` is preserved as soon as its three pairs satisfy the same condition (an angle is a
+    function of its three distances) — which is the case for every angle when the central bond is in
+    no ring, since then the moved set is one side of a bridge. -/
+theorem C20_dihedral_bonds (f : V3 α → V3 α) (hrigid : ∀ p q, V3.dist2 (f p) (f q) = V3.dist2 p q)
+    (moved : Nat → Bool) (pos : Nat → V3 α) :
+    let g : Nat → V3 α := fun k => if moved k then f (pos k) else pos k
+    (∀ i j, (moved i = moved j ∨ f (pos i) = pos i ∨ f (pos j) = pos j) →
+      V3.dist2 (g i) (g j) = V3.dist2 (pos i) (pos j)) ∧
+    (∀ i j k, (moved i = moved j ∨ f (pos i) = pos i ∨ f (pos j) = pos j) →
+      (moved j = moved k ∨ f (pos j) = pos j ∨ f (pos k) = pos k) →
+      (moved i = moved k ∨ f (pos i) = pos i ∨ f (pos k) = pos k) →
+      V3.dist2 (g i) (g j) = V3.dist2 (pos i) (pos j) ∧ V3.dist2 (g j) (g k) = V3.dist2 (pos j) (pos k) ∧
+      V3.dist2 (g i) (g k) = V3.dist2 (pos i) (pos k)) := by
+  intro g
+  have key : ∀ i j, (moved i = moved j ∨ f (pos i) = pos i ∨ f (pos j) = pos j) →
+      V3.dist2 (g i) (g j) = V3.dist2 (pos i) (pos j) := by
+    intro i j h
+    simp only [g]
+    cases hi : moved i <;> cases hj : moved j <;> simp only [hi, hj, if_true, if_false, Bool.false_eq_true] at h ⊢
+    · rcases h with h | h | h
+      · simp at h
+      · rw [← hrigid (pos i) (pos j), h]
+      · rw [h]
+    · rcases h with h | h | h
+      · simp at h
+      · rw [h]
+      · rw [← hrigid (pos i) (pos j), h]
+    · exact hrigid _ _
+  exact ⟨key, fun i j k h1 h2 h3 => ⟨key i j h1, key j k h2, key i k h3⟩⟩
+
+/-- the dihedral move of the code is such an `f`: rigid, and it fixes every point of the axis
+    (the points `p` that the alignment puts on the x axis: `Q(p − atom1) = (t,0,0)`; `atom1`
+    itself is the case `t = 0`, `atom2` the case `t = |bond|` by the alignment contract) -/
+theorem C20_dihedral_move_is_rigid (Q : M3 α) (hQ : Orthogonal Q) (c s : α) (hcs : c * c + s * s = 1)
+    (a : V3 α) :
+    (∀ p q, V3.dist2 (rotateDihedral1 Q c s a true p) (rotateDihedral1 Q c s a true q) = V3.dist2 p q) ∧
+    (∀ p t, Q.mulVec (p.sub a) = ⟨t, 0, 0⟩ → rotateDihedral1 Q c s a true p = p) ∧
+    rotateDihedral1 Q c s a true a = a := by
+  obtain ⟨_, hd, hax, _, _, hform, _, _⟩ := C20_rotation_rigid Q hQ c s hcs
+  have hfix : ∀ p t, Q.mulVec (p.sub a) = ⟨t, 0, 0⟩ → rotateDihedral1 Q c s a true p = p := by
+    intro p t h
+    have e : p.sub a = (M3.transpose Q).mulVec ⟨t, 0, 0⟩ := by
+      rw [← h, ← mulVec_mul, hQ.1, one_mulVec]
+    rw [hform, e, hax t, ← e, sub_add_cancel3]
+  refine ⟨?_, hfix, ?_⟩
+  · intro p q
+    rw [hform, hform, dist2_add_right, hd, dist2_sub_right]
+  · apply hfix a 0
+    refine v3_ext ?_ ?_ ?_ <;> simp only [M3.mulVec, V3.sub] <;> ring
+
+/-- `change_bond_length` translates the moved fragment: distances inside the fragment and inside
+    the rest are unchanged, atoms outside the fragment do not move, and when `atom1` stays and
+    `atom2` moves the bond vector becomes `(1 + length) ×` the old one (squared length
+    `(1 + length)² ×` the old one). -/
+theorem C20_bond_length_rigid (len : α) (a1 a2 : V3 α) :
+    (∀ p q, V3.dist2 (changeBondLength1 len a1 a2 true p) (changeBondLength1 len a1 a2 true q) = V3.dist2 p q) ∧
+    (∀ p, changeBondLength1 len a1 a2 false p = p) ∧
+    (changeBondLength1 len a1 a2 true a2).sub (changeBondLength1 len a1 a2 false a1) =
+      V3.smul (1 + len) (a2.sub a1) ∧
+    V3.dist2 (changeBondLength1 len a1 a2 true a2) (changeBondLength1 len a1 a2 false a1) =
+      (1 + len) * (1 + len) * V3.dist2 a2 a1 := by
+  refine ⟨?_, ?_, ?_, ?_⟩
+  · intro p q; simp only [changeBondLength1, if_true]; exact dist2_add_right _ _ _
+  · intro p; simp [changeBondLength1]
+  · refine v3_ext ?_ ?_ ?_ <;>
+      simp only [changeBondLength1, if_true, Bool.false_eq_true, if_false, V3.sub, V3.add, V3.smul] <;> ring
+  · simp only [changeBondLength1, if_true, Bool.false_eq_true, if_false, V3.dist2, V3.dot, V3.sub, V3.add,
+      V3.smul]
+    ring
+
+/-- `rotate_angle` rotates the moved fragment about the central atom `atom2` by an orthogonal
+    matrix `R` (scipy's rotation from the rotation vector): distances inside the fragment are
+    preserved, so are the distances from the pivot to every moved atom (the pivot is a fixed point
+    of the move), and atoms outside the fragment do not move. -/
+theorem C20_angle_rigid (R : M3 α) (hR : (M3.transpose R).mul R = M3.one) (a2 : V3 α) :
+    (∀ p q, V3.dist2 (rotateAngle1 R a2 true p) (rotateAngle1 R a2 true q) = V3.dist2 p q) ∧
+    rotateAngle1 R a2 true a2 = a2 ∧
+    (∀ p, V3.dist2 (rotateAngle1 R a2 true p) a2 = V3.dist2 p a2) ∧
+    (∀ p, rotateAngle1 R a2 false p = p) := by
+  have h1 : ∀ p q, V3.dist2 (rotateAngle1 R a2 true p) (rotateAngle1 R a2 true q) = V3.dist2 p q := by
+    intro p q
+    simp only [rotateAngle1, if_true]
+    rw [dist2_add_right, dist2_mulVec R hR, dist2_sub_right]
+  have h2 : rotateAngle1 R a2 true a2 = a2 := by
+    refine v3_ext ?_ ?_ ?_ <;> simp only [rotateAngle1, if_true, M3.mulVec, V3.sub, V3.add] <;> ring
+  refine ⟨h1, h2, ?_, ?_⟩
+  · intro p
+    have := h1 p a2
+    rwa [h2] at this
+  · intro p
+    simp only [rotateAngle1, Bool.false_eq_true, if_false]
+    exact sub_add_cancel3 p a2
+
+omit [Field α] in
+/-- how a per-atom move acts on a molecule given as a list of positions -/
+theorem applyMove_get (f : Bool → V3 α → V3 α) (movedAtoms : List Nat) (pos : List (V3 α)) (i : Nat) :
+    (applyMove f movedAtoms pos)[i]? = (pos[i]?).map (f (movedAtoms.contains i)) := by
+  simp only [applyMove, List.getElem?_map, List.getElem?_zipIdx, Nat.zero_add, Option.map_map]
+  rfl
+
+/-- non-vacuity: a rotation by a (3,4,5)-angle about an axis in general position is an instance of
+    `C20_rotation_rigid` (Q = the orthogonal matrix with rows (2,−2,1)/3, (1,2,2)/3, (2,1,−2)/3) -/
+example : Orthogonal (⟨2/3, -2/3, 1/3, 1/3, 2/3, 2/3, 2/3, 1/3, -2/3⟩ : M3 ℚ) ∧
+    ((3 : ℚ) / 5) * (3 / 5) + (4 / 5) * (4 / 5) = 1 ∧
+    (dihedralMatrix (⟨2/3, -2/3, 1/3, 1/3, 2/3, 2/3, 2/3, 1/3, -2/3⟩ : M3 ℚ) (3/5) (4/5)).mulVec ⟨1, 0, 0⟩
+      ≠ ⟨1, 0, 0⟩ := by
+  refine ⟨⟨?_, ?_⟩, by norm_num, ?_⟩
+  · simp only [M3.mul, M3.transpose, M3.one, M3.mk.injEq]; norm_num
+  · simp only [M3.mul, M3.transpose, M3.one, M3.mk.injEq]; norm_num
+  · simp only [dihedralMatrix, M3.mul, M3.transpose, rotX, M3.mulVec, ne_eq, V3.mk.injEq]; norm_num
+
+end rot
+
+/-- non-vacuity of `C20_std_step` / `C20_atomic_move`: the extreme draw `u = 0` attains `−s/2`;
+    a two-atom sample on four atoms moves exactly atoms 1 and 3. -/
+example : stdPerturbation (0 : ℚ) 3 = -(3 / 2) ∧
+    atomicPerturb (1 : ℚ) [3, 1] [(0, 1/2, 3/4), (1/4, 0, 1/2)] [0, 0, 0, 1, 1, 1, 2, 2, 2, 3, 3, 3] =
+      [0, 0, 0, 3/4, 1/2, 1, 2, 2, 2, 5/2, 3, 13/4] := by
+  constructor
+  · norm_num [stdPerturbation, half]
+  · decide +kernel
+
 end TopSearch.Props.C20
